@@ -71,3 +71,18 @@ def call_sites(model: Model, target_q: str):
                 if r == target_q:
                     out.append((f, n))
     return out
+
+
+def cross_reference(structural, semantic, note: str):
+    """A clause that is DECIDED by evaluating the real code (E5 scenarios `semantic`) may also have a structural reading (rules over the
+    shape of the source).  The structural reading is kept as a cross-reference: where it is not positive - because the code was restructured
+    into a form the rule does not recognise, which it cannot tell from a real violation - it is reported as INFO, never as a verdict.
+    If the evaluation itself could not be carried out (an ERROR among `semantic`, or nothing evaluated), the structural verdicts stand."""
+    from ..report import VIOLATED, ERROR, INFO
+    decides = bool(semantic) and not any(o.status == ERROR for o in semantic)
+    if decides:
+        for o in structural:
+            if o.status in (VIOLATED, ERROR):
+                o.status = INFO
+                o.detail = f"structural reading inconclusive (the clause is decided by evaluation: {note}): " + o.detail
+    return structural
